@@ -85,6 +85,12 @@ CLAIMS = {
         technique="Coq frame theorem + source-derived inventory obligations (vm_compute) + randomized history execution against fresh processes",
         design="7/C18",
     ),
+    "C07": dict(
+        text="PARTIAL proof + cross-host execution. Proved in Coq: every test the package makes on the identity of the running interpreter (PYTHON_VERSION_TRIPLE, sys.version_info, PYTHON3, IS_PYPY ... - sites regenerated from the AST of /repo on every run and evaluated for 3.8.18-3.13.0) has the same value on all six hosts except the to_native() guards; the host's identity is passed on as a value only at listed sites; and the one host-dependent switch of the load path is harmless: for every magic and payload the portable reader returns the tree CPython's reader returns (C01's simulation theorem, restated). Executed: corpus files and files compiled by each installed interpreter are loaded under all six hosts, and files of the host's own version additionally with the fast path switched off and as converted native code objects; header, every code-object field, constants by kind and value, instruction stream with argval, labels, line starts and the classic listing (minus addresses and banner) are compared.",
+        note="Trusted: Coq kernel; AST scanner tools/translate/hostsites.py; the allow-lists in coq/Model/HostIndep.v; harness canonicalisation (tools/harness/ops_hostpath.py). Equality of the real runs is observed on the sampled files, not proved. No axioms.",
+        technique="source-derived site obligations (vm_compute) + Coq simulation theorem (C01) + differential execution across six hosts and three loader paths",
+        design="7/C07",
+    ),
     "C19": dict(
         text="Machine-checked Coq proofs of the round-trip law for the three freeze() encoders, for EVERY mapping with offsets strictly increasing from 0 and consecutive lines different, offset and line gaps unbounded (continuation entries are induction cases): findlinestarts(decode) of Code3/Code38's table (signed, any decreasing lines), of Code15/Code2's table (lines increasing; reads back under both the unsigned and the signed rule), and of Code310's range table (via co_lines()) returns the mapping. By the C05 theorems the decoders used are CPython's. Encoder models tied to /repo by in-Coq correspondence (dict and list inputs, boundary gaps); model-made tables are additionally decoded by the real 2.7, 3.6-3.10.",
         note="Trusted: Coq kernel; hand model coq/Model/Freeze.v (while-loops as closed forms) + correspondence harness; C05 decoder theorems and spec validation. Hypotheses stated in the theorems: offsets start at 0, lie inside co_code, consecutive lines differ; for 1.5-2.7 lines do not decrease. No axioms.",
